@@ -4,6 +4,7 @@ From SV Require Import Lib.Base Gen.Consts.
 From SV Require Import Model.Seq32 Model.Assembler Model.TcpBuf Model.TcpTypes Model.Tcp.
 From SV Require Import Proofs.TcpSendBase Proofs.TcpSendInv Proofs.TcpLiveBase Proofs.TcpLiveProofs.
 From SV Require Import Proofs.TcpBurstBase Proofs.TcpBurstStep Proofs.TcpBurstEmit Proofs.TcpBurstProofs.
+From SV Require Import Model.EgressLoop Proofs.EgressLoopProofs Proofs.TcpBurstLoop.
 From SV Require Import Proofs.TcpBurstExamples Proofs.TcpBurstInv.
 From SV Require Import Proofs.AssemblerProofs Proofs.TcpRecvBase Proofs.TcpRecvWindow Proofs.TcpRecvPayload Proofs.TcpRecvInv Proofs.TcpBurstRx.
 From SV Require Import Proofs.TcpSendTrace.
@@ -63,3 +64,21 @@ Check (C03_tcp_rx_ok_of_synced : forall S F have irs c s,
   rx_synced S F have irs c s -> rx_ok s).
 
 Check (C03_tcp_rx_ok_of_unsynced : forall s, rx_unsynced s -> rx_ok s).
+
+Check (C03_tcp_silent_step : forall cx s e s' out tags,
+  binv cx s -> tcp_dispatch cx s e = Ok (s', out, tags) -> (forall p, out <> DSent p) ->
+  mu cx s' <= mu cx s /\ (s_tuple s' = None \/ binv cx s')).
+
+Check (C03_tcp_socket_set_egress_returns :
+  forall (E : Type) (can_emit : E -> socket -> bool * E) (exhausted : E -> socket -> bool)
+         (pre : E -> E) (cx : ctx) fuel e ss,
+  Forall (sock_inv cx) ss -> (sum_bound cx ss < fuel)%nat ->
+  exists e' r n,
+    poll_loop2 E socket (tcp_dispatch2 E can_emit exhausted cx) pre fuel e ss = Some (e', r, n) /\
+    (n <= sum_bound cx ss)%nat /\ length r = length ss /\ Forall (sock_inv cx) r).
+
+Check (C03_tcp_socket_set_example :
+  Forall (sock_inv (bx_cx 1000 1500)) set3 /\
+  sum_bound (bx_cx 1000 1500) set3 = 28%nat /\
+  set3_poll 100 = Some (90%nat, 5%nat, [1; 0; 1]) /\
+  set3_poll 3 = Some (0%nat, 2%nat, [4; 0; 5])).
